@@ -440,7 +440,42 @@ harness!(quantizer_u8_p4_sup3, unwind = 12, |s| {
     assert!(k == 3);
 });
 
+// C09: symbols far outside the support, whose value aliases an in-support symbol after narrowing to the
+// (narrower) probability type, must be refused by the quantised model
+harness!(quantizer_wide_symbol_none, unwind = 6, |s| {
+    let v: [f64; 2] = [s.f64(), s.f64()];
+    s.assume(v[0] >= 0.0 && v[0] <= v[1] && v[1] <= 1.0);
+    let quantizer = LeakyQuantizer::<f64, i16, u8, 4>::new(-1..=1);
+    let m = quantizer.quantize(TableDistI16 { v });
+    let sym = s.u16() as i16;
+    let r = m.left_cumulative_and_probability(sym);
+    assert!(r.is_some() == (sym >= -1 && sym <= 1));
+    vcover!(sym == 255);
+    vcover!(sym == -257);
+    vcover!(sym == 0);
+});
+
+#[derive(Clone, Copy)]
+pub struct TableDistI16 {
+    pub v: [f64; 2],
+}
+impl Distribution for TableDistI16 {
+    type Value = f64;
+    fn distribution(&self, x: f64) -> f64 {
+        if x < -1.0 {
+            0.0
+        } else if x < 0.0 {
+            self.v[0]
+        } else if x < 1.0 {
+            self.v[1]
+        } else {
+            1.0
+        }
+    }
+}
+
 dispatch!(
+    quantizer_wide_symbol_none,
     fixed_contiguous_p8, fixed_contiguous_p4, fixed_contiguous_quantile_p8, fixed_contiguous_quantile_p4, fixed_infer_complete_p8, fixed_infer_complete_p4,
     fixed_noncontig_p8, fixed_noncontig_p4, fixed_lookup_p4, fixed_lookup_p8,
     uniform_u8_p8, uniform_u8_p5, uniform_rejects, conversions_contiguous_p4,
